@@ -267,7 +267,7 @@ func genStr(r *Rng, class string) []byte {
 
 // name classes: label lists
 var nameClasses = []string{"plain", "root", "one", "upper", "digits", "punct", "dot", "blank", "quote",
-	"backslash", "semicolon", "paren", "at", "nonprint", "label63", "wire255", "typeword", "mixed"}
+	"backslash", "semicolon", "paren", "at", "nonprint", "label63", "label63esc", "wire255", "wire255esc", "typeword", "mixed"}
 
 func genName(r *Rng, class string) [][]byte {
 	tail := [][]byte{[]byte("example"), []byte("org")}
@@ -305,6 +305,13 @@ func genName(r *Rng, class string) [][]byte {
 		return lab(withSpecial(r, []byte{sp[variant%len(sp)]}))
 	case "label63":
 		return lab(randAlnum(r, 63))
+	case "label63esc":
+		// a maximal label most of whose octets are printed with a one-character escape:
+		// the text is far longer than 63 characters, the label is exactly 63 (or 62) octets
+		return lab(escHeavy(r, 63-r.Intn(2)))
+	case "wire255esc":
+		// 255 (or 254) wire octets, labels full of one-character escapes
+		return [][]byte{escHeavy(r, 63), escHeavy(r, 63), escHeavy(r, 63), escHeavy(r, 61-r.Intn(2))}
 	case "wire255":
 		// 3 labels of 63 + one of 61 + root = 255 octets; all octets need \DDD
 		mk := func(n int) []byte {
@@ -331,6 +338,20 @@ func genName(r *Rng, class string) [][]byte {
 		return [][]byte{o[:k], o[k:]}
 	}
 	panic("genName " + class)
+}
+
+// escHeavy: n octets, about half of them characters that sprintName escapes with a single backslash
+func escHeavy(r *Rng, n int) []byte {
+	sp := []byte(". \"();@$\\")
+	o := make([]byte, n)
+	for i := range o {
+		if r.Intn(2) == 0 {
+			o[i] = sp[r.Intn(len(sp))]
+		} else {
+			o[i] = byte('a' + r.Intn(26))
+		}
+	}
+	return o
 }
 
 var blobClasses = []string{"plain", "empty", "one", "long"}
